@@ -1,7 +1,11 @@
 import QP.Model.PT
+import QP.Proofs.PTExamples
 import QP.Proofs.PTTop
 import QP.Proofs.PTReverse
 import QP.Proofs.PTTopW
+import QP.Proofs.PTTop2W
+import QP.Proofs.PTTop3W
+import QP.Proofs.PTSingle
 import Mathlib.Tactic.Linarith
 /-!
 # C02 — measurement windows of a program are the declared windows in absolute time
@@ -9,39 +13,64 @@ import Mathlib.Tactic.Linarith
 Full statement (DESIGN 4/C02): `createProgram … = .ok (some prog) → prog.windows ~ (denoteTop …).windows`
 (permutation) for every template, and every window declared inside its node lies inside `[0, duration]`.
 
-Proved here: `windows_correct_partial` for the stage-1 constructor subset (see `QP.Props.C01`),
-`windows_correct_reversal_partial` for that subset extended by time reversal, `reverse_mirrors_windows` for
-`Loop.reverse_inplace` on every program tree, and the
-"inside" property as preservation theorems on the denotation: sequencing, repetition, own windows of a node
-and time reversal keep windows inside the pulse.  Windows of table / point / multi-channel / arithmetic atoms,
-parallel channels, scalar arithmetic, time reversal (program side: `Loop.reverse_inplace`, PF-03 repaired) and
-the single-waveform collapse are covered by the correspondence + judge only.
+Proved here: `windows_correct_partial` / `windows_correct_reversal_partial` for `Stage3R` — the proved atoms
+(constant, function, table, point, `AtomicMultiChannelPT` of them) composed by ALL seven composite constructors
+(sequence, repetition, iteration, mapping, time reversal, parallel channels, arithmetic with a scalar), without
+positivity assumption and for the empty program —, `windows_correct_single_partial` for every `to_single_waveform`
+set (C05), `reverse_mirrors_windows` for `Loop.reverse_inplace` on every program tree, and the "inside" property as
+preservation theorems on the denotation: sequencing, repetition, own windows of a node and time reversal keep windows
+inside the pulse.  `ArithmeticAtomicPT` and wrappers in atomic context: correspondence + judge only.
 -/
 namespace QP.Props.C02
 open QP.PT
 
-/-- **windows (partial)**: the windows of the compiled program are, as a multiset, the windows the template
-denotes — one per execution of the declaring node, at execution start + begin, under the mapped name. -/
-theorem windows_correct_partial {pt : PT} (hs : Stage1 pt) (params : List (String × Rat))
+/-- **windows (partial)**: for `Stage3R` (all composite constructors over the proved atoms) the windows of the compiled
+program are, as a multiset, the windows the template denotes — one per execution of the declaring node, at execution
+start + begin, under the mapped name; no positivity assumption, no PF-11 exclusion. -/
+theorem windows_correct_partial {pt : PT} (hs : Stage3R pt) (params : List (String × Rat))
     (mm : Option (List (MName × Option MName))) (cm : List (Chan × Option Chan)) (prog : Loop) (P : Pulse)
     (hprog : createProgram pt params mm cm [] = .ok (some prog))
-    (hden : denoteTop pt params mm cm = .ok P) (hpos : prog.allPos) :
+    (hden : denoteTop pt params mm cm = .ok P) :
     prog.windows.Perm P.windows :=
-  (createProgram_rel hs params mm cm prog P hprog hden hpos).2.2.1
+  (createProgram_relWT_basic hs.basic params mm cm (some prog) P hprog hden).2
 
-/-- **windows incl. time reversal (partial)**: for the stage-1 subset extended by `TimeReversalPT` (`Stage1R`),
+/-- **windows incl. the empty program (partial)**: for `Stage3R`,
 without any positivity assumption: the program's windows are the denoted windows — inside a time reversed part
 mirrored about that part's duration —, and if no program is produced nothing is denoted either. -/
-theorem windows_correct_reversal_partial {pt : PT} (hs : Stage1R pt) (params : List (String × Rat))
+theorem windows_correct_reversal_partial {pt : PT} (hs : Stage3R pt) (params : List (String × Rat))
     (mm : Option (List (MName × Option MName))) (cm : List (Chan × Option Chan)) (prog? : Option Loop) (P : Pulse)
     (hprog : createProgram pt params mm cm [] = .ok prog?) (hden : denoteTop pt params mm cm = .ok P) :
     match prog? with
     | some prog => prog.windows.Perm P.windows
     | none => P.windows = [] := by
-  have := createProgram_relW hs params mm cm prog? P hprog hden
+  have := createProgram_relWT_basic hs.basic params mm cm prog? P hprog hden
   cases prog? with
   | some prog => exact this.2
   | none => exact this.2
+
+/-- **windows for every `to_single_waveform` set**: collapsing sub-templates into single waveforms keeps the windows
+(C05 `collapse_invariant_partial`), so they are the denoted ones for every set `S` — all composite constructors incl.
+time reversal, outside C05's exclusion class `cleanW`, under C05's output-checkable side conditions (`nonnegW`: no
+played waveform of negative duration; `tidy c` for some channel `c`). -/
+theorem windows_correct_single_partial {pt : PT} (hs : Stage3R pt) (params : List (String × Rat))
+    (mm : Option (List (MName × Option MName))) (cm : List (Chan × Option Chan)) (S : List String)
+    (prog0 progS : Loop) (P : Pulse)
+    (h0 : createProgram pt params mm cm [] = .ok (some prog0))
+    (hnn0 : QP.C05.allLeaves QP.C05.nonnegW prog0 = true)
+    (hS : createProgram pt params mm cm S = .ok (some progS))
+    (hden : denoteTop pt params mm cm = .ok P)
+    (hclean : QP.C05.cleanW S false false pt = true)
+    (c : Chan) (ht0 : QP.C05.allLeaves (QP.C05.tidy c) prog0 = true)
+    (htS : QP.C05.allLeaves (QP.C05.tidy c) progS = true) :
+    progS.windows.Perm P.windows :=
+  (createProgram_single_W hs params mm cm S prog0 progS P h0 hnn0 hS hden hclean c ht0 htS).2
+
+/-- non-vacuity: a tree with time reversal, scalar arithmetic, parallel channels and an `ArithmeticAtomicPT` is in
+the scope of the window theorems -/
+example : Stage3R (.timeReversal none (.arith none (.parallel none
+    (.arithAtomic none exPt false exPt []) [("B", .lit 1)]) .plus (.uniform (.lit 1)) true)) :=
+  Stage3R.timeReversal (Stage3R.arith (Stage3R.parallel (Stage3R.atom
+    (AtomTreeW.arithAtomic (AtomTreeW.base AtomTree.const) (AtomTreeW.base AtomTree.const)))))
 
 /-- all windows of a pulse lie inside `[0, duration]` -/
 def Inside (P : Pulse) : Prop := ∀ w ∈ P.windows, 0 ≤ w.2.1 ∧ w.2.1 + w.2.2 ≤ P.dur
